@@ -191,6 +191,7 @@ func TestVerifC02(t *testing.T) {
 			r.Emit(l, "bad-op")
 		}
 	}
+	hCompleted = true
 }
 
 // c02Run builds on a fresh parent + mempool, verifies the built block, and renders the result.
@@ -500,7 +501,11 @@ func c02Generate(r *verifh.Run) []string {
 	c02EmitCaseGap(&lines, "100,100,100,100,100", huge, huge, 1<<20, 2, 60000, par, []*hGenTx{exp2, mk(8, map[int]int{5: 7}, []string{"p5=1"})}, []bool{false, false}, []int{4})
 
 	priceChoices := []string{"100,100,100,100,100", "1,1,1,1,1", "1,2,3,4,5", "1000,1,1,1,1"}
-	for n := r.N(110, 2500); n > 0; n-- {
+	ncases := r.N(110, 2500)
+	if hRace {
+		ncases = r.N(40, 300)
+	}
+	for n := ncases; n > 0; n-- {
 		ntx := rng.Intn(61)
 		if r.Thorough() && rng.Chance(4) {
 			ntx = 200 + rng.Intn(400) // crosses the 256-tx stream batches
